@@ -7,6 +7,8 @@ designs: expr   batches of AmExpr programs (TLC -simulate), combinational
          dom    AmDesign behaviours: pos/neg edge, sync/async reset, inserter/renamer stacks, two clocks
          hier   seeded random module hierarchies: signals driven in one module and used in ancestors, descendants
                 and siblings, partially driven, undriven and zero-width signals, registers in submodules
+         mem    seeded random memories: 1-2 write ports with granularity, asynchronous and synchronous read ports with
+                enable and transparency sets, two clock domains ($meminit_v2 / $memrd_v2 / $memwr_v2)
 Since C01-C03 bind pysim to AmExpr/AmStmt/AmDesign, this closes the triangle language-spec = pysim = RTLIL."""
 import glob
 import os
@@ -204,6 +206,65 @@ def _hier_design(seed):
     return _mk(top, ins, outs, events, {"source": "hier", "seed": seed})
 
 
+def _mem_design(seed):
+    """Random memory with 1-2 write ports (granularity) and 1-2 read ports (asynchronous, or synchronous with enable and
+    a transparency set) in one or two clock domains; power-of-two depth so every address is in range; the two clocks
+    never toggle in the same event and two write ports sit in different domains (collisions are undefined in RTLIL)."""
+    from amaranth.hdl import Module, Signal, ClockDomain, signed, unsigned
+    from amaranth.lib.memory import Memory
+    from .. import rtlil_eq
+    rng = random.Random(seed)
+    top = Module()
+    cds = {}
+    for dn in ("A", "B"):
+        cds[dn] = ClockDomain(dn, reset_less=True, clk_edge=rng.choice(["pos", "pos", "neg"]))
+        setattr(top.domains, dn, cds[dn])
+    W = rng.choice([1, 2, 4, 6])
+    abits = rng.choice([0, 1, 2, 3])
+    depth = 1 << abits
+    shape = signed(W) if rng.random() < 0.3 else unsigned(W)
+    lo, hi = (-(1 << (W - 1)), (1 << (W - 1)) - 1) if shape.signed else (0, (1 << W) - 1)
+    mem = Memory(shape=shape, depth=depth, init=[rng.randint(lo, hi) for _ in range(rng.randint(0, depth))])
+    top.submodules.mem = mem
+    ins, outs = {}, {}
+    wports = []
+    wdoms = rng.choice([["A"], ["B"], ["A", "B"]])
+    for k, dn in enumerate(wdoms):
+        gran = None if shape.signed else rng.choice([None, 1] + ([W // 2] if W % 2 == 0 and W > 1 else []))
+        wp = mem.write_port(domain=dn, granularity=gran)
+        wa = Signal(abits, name="wa%d" % k)
+        wd = Signal(W, name="wd%d" % k)
+        we = Signal(len(wp.en), name="we%d" % k)
+        top.d.comb += [wp.addr.eq(wa), wp.data.eq(wd), wp.en.eq(we)]
+        ins.update({wa.name: wa, wd.name: wd, we.name: we})
+        wports.append((dn, wp))
+    for k in range(rng.randint(1, 2)):
+        dn = rng.choice(["comb", "A", "B"])
+        ra = Signal(abits, name="ra%d" % k)
+        ins[ra.name] = ra
+        if dn == "comb":
+            rp = mem.read_port(domain="comb")
+        else:
+            same = [wp for d2, wp in wports if d2 == dn]
+            rp = mem.read_port(domain=dn, transparent_for=[wp for wp in same if rng.random() < 0.6])
+            re_ = Signal(name="re%d" % k)
+            top.d.comb += rp.en.eq(re_)
+            ins[re_.name] = re_
+        top.d.comb += rp.addr.eq(ra)
+        o = Signal(shape, name="rd%d" % k)
+        top.d.comb += o.eq(rp.data)
+        outs[o.name] = o
+    # keep both domains alive
+    ka, kb = Signal(name="ka"), Signal(name="kb")
+    top.d.A += ka.eq(~ka)
+    top.d.B += kb.eq(~kb)
+    ins[cds["A"].clk.name] = cds["A"].clk
+    ins[cds["B"].clk.name] = cds["B"].clk
+    ins = {k: v for k, v in ins.items() if len(v)}
+    events = rtlil_eq.random_events(rng, ins, [cds["A"].clk.name, cds["B"].clk.name], 40, coincident=False)
+    return _mk(top, ins, outs, events, {"source": "mem", "seed": seed})
+
+
 def operand_safe(rng, ins_sigs):
     s = rng.choice(ins_sigs)
     return s[0] if len(s) else s
@@ -278,6 +339,8 @@ def design_jobs(ctx, th, scale=1.0):
         jobs.append((_dom_design, (cfg, events)))
     for k in range(int((3000 if th else 250) * scale)):
         jobs.append((_hier_design, rng.getrandbits(40)))
+    for k in range(int((2000 if th else 200) * scale)):
+        jobs.append((_mem_design, rng.getrandbits(40)))
     return jobs
 
 
@@ -327,7 +390,7 @@ def _run_rest(ctx, jobs):
             ctx.notes.append("binding demo: swapping $add for $sub was not observable in the chosen design")
     ctx.cov["rule"] = ("program = one elaborated design (its RTLIL flattened); disagreements_checked = steps x compared ports; "
                        "non-trivial = netlist has at least one cell/process")
-    ctx.assume("values < 2^30; x/z digits read as 0; memories, $print/$check text, instances and inout ports are not evaluated here")
+    ctx.assume("values < 2^30; x/z digits read as 0 (incl. the undefined power-on value of synchronous read ports); $print/$check text, instances and inout ports are not evaluated; memory addresses stay in range and write ports never collide")
     ctx.assume("input changes never coincide with a clock edge in one testbench write")
 
 
